@@ -361,6 +361,7 @@ def run(ctx):
         ctx.broke('translator', 'c10_tr.generate(mapping_affine.py, mapping_isoparametric.py, refdom.py)', e)
         gen_ok = False
     poly_info = None
+    bridge_future = None
     if gen_ok:
         try:
             from .. import c10_poly
@@ -372,7 +373,12 @@ def run(ctx):
         dyn = ctx.copy_dyn()
         first = ['gen/C10Gen.v', 'dyn/C10_Tac.v']
         if ctx.compile_dyn(first):
-            compile_parallel(ctx, [d for d in dyn if d not in first] + (['gen/C10GenPoly.v'] if poly_info else []))
+            last = [d for d in dyn if 'RealBridge' in d]          # imports Gen.C10GenPoly and Dyn.C10_Iso
+            compile_parallel(ctx, [d for d in dyn if d not in first and d not in last] + (['gen/C10GenPoly.v'] if poly_info else []))
+            if poly_info and last:
+                from concurrent.futures import ThreadPoolExecutor
+                bridge_pool = ThreadPoolExecutor(1)                 # coqc subprocess: runs beside the property file and the correspondences
+                bridge_future = bridge_pool.submit(compile_parallel, ctx, last)
     ctx.prove()
     if gen_ok:
         affine_correspondence(ctx, rng)
@@ -381,6 +387,8 @@ def run(ctx):
             poly_correspondence(ctx, rng, poly_info)
     from .. import c10_oracle
     c10_oracle.run(ctx, rng)
+    if bridge_future is not None:
+        bridge_future.result()
 
 
 def replay(ctx, data):
